@@ -615,6 +615,16 @@ PEM = r"""
         assert_eq!(imported, CertificateParams::from_ca_cert_der(cert.der()).unwrap(), "PEM and DER import disagree");
         let req = CertificateSigningRequestParams::from_pem(&csr.pem().unwrap()).expect("from_pem refuses a CSR's pem()");
         assert_eq!(req.public_key.der_bytes(), key.public_key_raw());
+        // a key block the back end cannot load: the error must not quote the block
+        for cut in [3usize, 20] {
+            let der = key.serialize_der();
+            let broken = pem::encode(&pem::Pem::new("PRIVATE KEY", der[..der.len() - cut].to_vec()));
+            if let Err(e) = KeyPair::from_pem(&broken) {
+                let text: String = format!("{} {:?}", e, e).chars().filter(|c| !c.is_whitespace()).collect();
+                let dec: String = format!("{:?}", &der[40..56]).chars().filter(|c| !c.is_whitespace()).collect();
+                assert!(!text.contains(&dec[1..dec.len() - 1]), "the error for an unloadable key quotes the key block");
+            }
+        }
         let spki = SubjectPublicKeyInfo::from_pem(&key.public_key_pem()).expect("SubjectPublicKeyInfo::from_pem refuses public_key_pem()");
         assert_eq!(spki.der_bytes(), key.public_key_raw());
         let _ = &ca_key;
@@ -693,21 +703,42 @@ NOPANIC = r"""
 
 
 DEBUGSECRET = r"""
+    // an Ed25519 key stored as a PKCS#8 v1 document (as OpenSSL writes it: the document ENDS with the private seed) - the accessors must still
+    // return the public key only
+    {
+        use rcgen::*;
+        let k2 = KeyPair::generate_for(&PKCS_ED25519).unwrap();
+        let v2 = k2.serialize_der();
+        let seed = &v2[16..48];
+        let mut v1 = vec![0x30, 0x2e, 0x02, 0x01, 0x00, 0x30, 0x05, 0x06, 0x03, 0x2b, 0x65, 0x70, 0x04, 0x22, 0x04, 0x20];
+        v1.extend_from_slice(seed);
+        let k1 = KeyPair::try_from(v1.as_slice()).expect("a PKCS#8 v1 Ed25519 key does not load");
+        assert_eq!(k1.public_key_der(), k2.public_key_der(), "public_key_der of a v1-stored Ed25519 key is not the public key");
+        assert_eq!(k1.public_key_raw(), k2.public_key_raw());
+        assert!(!k1.public_key_der().windows(16).any(|w| w == &seed[..16]), "public_key_der returns the private seed");
+        let cert = CertificateParams::new(vec!["x.example".to_string()]).unwrap().self_signed(&k1).unwrap();
+        assert!(!cert.der().windows(16).any(|w| w == &seed[..16]), "a certificate contains the private seed");
+    }
     // C19 battery: the Debug rendering of a key pair does not contain its private key document in any usual rendering
     use rcgen::*;
     for alg in [&PKCS_ECDSA_P256_SHA256, &PKCS_ECDSA_P384_SHA384, &PKCS_ED25519] {
         let key = KeyPair::generate_for(alg).unwrap();
         let der = key.serialize_der();
-        let shown = format!("{:?} {:#?}", key, key);
+        // (whitespace removed: the pretty form prints one list element per line)
+        let shown: String = format!("{:?} {:#?} {:x?} {:#x?}", key, key, key, key).chars().filter(|c| !c.is_whitespace()).collect();
         // bytes 40..56 of the PKCS#8 document lie inside the private scalar / seed for all three key types (the tail of the document is the
         // public key, which ring's Debug output legitimately shows)
         let secret = &der[40..56];
-        let dec = format!("{:?}", secret); let dec_inner = &dec[1..dec.len() - 1];
+        let dec: String = format!("{:?}", secret).chars().filter(|c| !c.is_whitespace()).collect(); let dec_inner = &dec[1..dec.len() - 1];
+        let hexlist: String = format!("{:x?}", secret).chars().filter(|c| !c.is_whitespace()).collect(); let hexlist_inner = &hexlist[1..hexlist.len() - 1];
         let hex: String = secret.iter().map(|b| format!("{:02x}", b)).collect();
         let hex_upper = hex.to_uppercase();
-        for window in [dec_inner, &hex[..], &hex_upper[..]] {
+        for window in [dec_inner, hexlist_inner, &hex[..], &hex_upper[..]] {
             assert!(!shown.contains(window), "the Debug output of a key pair contains part of its private key");
         }
+        // public-key accessors: nothing of the private part, in any rendering
+        let pk_all: String = format!("{:x?} {:x?} {}", key.public_key_der(), key.public_key_raw(), key.public_key_pem()).chars().filter(|c| !c.is_whitespace()).collect();
+        assert!(!pk_all.contains(hexlist_inner), "a public-key accessor returns bytes of the private key");
         let pem = key.serialize_pem();
         let b64: String = pem.lines().filter(|l| !l.starts_with("-----")).collect();
         assert!(!shown.contains(&b64[56..76]), "the Debug output of a key pair contains its private key in base64");
